@@ -334,6 +334,7 @@ def classify(res, prop, h):
         return {"status": "inconclusive", "failures": [], "notes": [kind + ":\n" + tail]}
     inconclusive = False
     end_seen = False
+    masking = []
     for c in res["checks"]:
         st = c["status"]
         if ".cover." in c["name"] or st in ("SATISFIED", "UNSATISFIABLE"):
@@ -392,9 +393,15 @@ def classify(res, prop, h):
         if prop in MEMSAFE_OWNERS:
             failures.append(dict(c, cls="builtin"))
         else:
-            notes.append("built-in check failed (decided by C07): %s @ %s" % (c["desc"], c["loc"]))
+            # Kani cuts the path at a failing built-in check, so assertions of this property
+            # further down the same path were never evaluated: keep it as a candidate and let
+            # the native replay (which runs on) decide whether this property's assertions fail
+            masking.append(dict(c, cls="masking"))
+            notes.append("built-in check failed (decided by C07; may mask this property's assertions): %s @ %s" % (c["desc"], c["loc"]))
     if failures:
         return {"status": "fail", "failures": failures, "notes": notes}
+    if masking:
+        return {"status": "fail", "failures": masking[:3], "notes": notes}
     if not end_seen and res["verdict"] == "SUCCESSFUL":
         inconclusive = True
         notes.append("vacuity: the end of the harness is not reachable (END-OF-HARNESS cover not satisfied)")
@@ -464,7 +471,7 @@ def miri_replay(scratch, prop, harness_name, vals):
         return [("miri", -998, "miri replay timed out")]
 
 
-def replay_reproduces(outs, prop):
+def replay_reproduces(outs, prop, tagged_only=False):
     """A replay reproduces when the process reports a tagged assertion of this
     property, panics inside the crate (overflow, unwrap ...), or dies from a signal."""
     for prof, rc, out in outs:
@@ -479,6 +486,8 @@ def replay_reproduces(outs, prop):
             m = re.search(r"VASSERT-FAILED (\[[A-Z0-9 ]+\].*)", out)
             if m and prop in tags_of(m.group(1)):
                 return True, prof, m.group(1)
+            continue
+        if tagged_only:
             continue
         if rc == -999:
             return True, prof, "non-termination"
@@ -657,7 +666,8 @@ def _check_property(prop, tier, seed, sel, scratch, t_start):
                     vals = []
                 else:
                     outs = native_replay(scratch, prop, h.name, vals)
-                ok, prof, what = replay_reproduces(outs, prop)
+                only_masking = all(f.get("cls") == "masking" for f in remaining)
+                ok, prof, what = replay_reproduces(outs, prop, tagged_only=only_masking)
                 if not ok and prop in MEMSAFE_OWNERS and any(f.get("cls") == "builtin" for f in remaining) and rname == h.name:
                     outs = outs + miri_replay(scratch, prop, h.name, vals)
                     ok, prof, what = replay_reproduces(outs, prop)
